@@ -794,6 +794,34 @@ def rule_id_guard(prop, repo, N):
             else:
                 if any(c == 0 for c in combo):
                     bad.append((list(combo), "Miller loop entered although an operand has no affine form"))
+        if len(datoms) < 2:
+            # the two `to_affine()` answers are combined without a `match` in this body (`zip` / `map` / `unwrap_or_else`): the same
+            # table read off the outcomes of the abstract machine (closures looked into, everything else opaque)
+            from core.bytex import Machine, T as BT, Ref as BRef
+            bad, rows, seen_none = [], 0, set()
+            try:
+                outs = Machine(F, lambda cb: cb.rec["kind"] in ("Closure", "Ctor")).run(pb, [BRef(0, 0), BRef(0, 1)], holders=[BT("p"), BT("q")])
+            except Exception as e:
+                outs = []
+                bad.append(("machine", str(e)[:80]))
+            for o in outs:
+                ta = [(a, c) for a, c in o.pc if isinstance(a, BT) and a[0] == "call" and a[1].split("::")[-1] == "to_affine" and len(a[3]) == 1 and a[3][0] in (BT("p"), BT("q"))]
+                nones = {a[3][0][0] for a, c in ta if c == "None"}
+                if o.kind == "panic" and not nones and len(ta) == 2:
+                    continue          # the `expect` on the final exponentiation of a Miller value (C01's assumed producer)
+                rows += 1
+                txt = repr(o.value)
+                if nones:
+                    seen_none |= nones
+                    if not (o.kind == "return" and isinstance(o.value, BT) and o.value[0] == "call" and o.value[1].split("::")[-1] == "one" and not o.value[3]):
+                        bad.append((sorted(nones), "%s %s" % (o.kind, txt[:100])))
+                    elif "miller_loop" in txt:
+                        bad.append((sorted(nones), "Miller loop entered although an operand has no affine form"))
+                elif len(ta) != 2 or "miller_loop" not in txt:
+                    bad.append(([], "%s %s" % (o.kind, txt[:100])))
+            if seen_none != {"p", "q"}:
+                bad.append(("coverage", "no path on which %s has no affine form" % sorted({"p", "q"} - seen_none)))
+            datoms = [None, None] if not bad else datoms
         R.check(not bad and len(datoms) >= 2, "%s:identity-result:crate::pairings::pairing" % prop,
                 "pairings::pairing: identity arms do not all return one / skip the Miller loop: %s" % bad[:2], pb.file_line(), pb.rec["path"],
                 sample={"entry": pb.rec["path"], "to_affine_tests": len(datoms), "paths": rows})
